@@ -207,7 +207,9 @@ func TestHealthyNoDuplicates(t *testing.T) {
 						// both known findings are about WHEN a broadcast entry arrives; a covering entry that its
 						// writer never handed to the gossip layer at all is neither
 						if cur0, ok1 := det["current"].(map[string]any); ok1 {
-							if prev0, ok2 := det["previous"].(map[string]any); ok2 && fmt.Sprint(cur0["instance"]) != fmt.Sprint(prev0["instance"]) {
+							// (only meaningful when the previous delivery had ended before this one started: deliveries
+							// take 1 us in the simulation, and two instances whose waits end at the same instant overlap)
+							if prev0, ok2 := det["previous"].(map[string]any); ok2 && fmt.Sprint(cur0["instance"]) != fmt.Sprint(prev0["instance"]) && prev0["end_ns"].(int64) <= cur0["start_ns"].(int64) {
 								neverBroadcast = true
 								for _, e := range res.Log.Snapshot() {
 									if e.Kind != "nflog-write" || e.Instance != fmt.Sprint(prev0["instance"]) {
